@@ -152,7 +152,8 @@ func (cs c19Case) dscText(s c19Src) string {
 	} else {
 		sb.WriteString("Binary: " + strings.Join(s.Binaries, ", ") + "\n")
 	}
-	sb.WriteString("Architecture: any all\nVersion: 1.0-1\nMaintainer: A <a@example.org>\n")
+	// (what the source builds for says nothing about which of its build-dependency fields count)
+	sb.WriteString("Architecture: " + []string{"any all", "any", "all", "amd64 i386", "linux-any", "any all"}[len(s.Name)%6] + "\nVersion: 1.0-1\nMaintainer: A <a@example.org>\n")
 	for i, dep := range s.Fields {
 		if len(dep) == 0 {
 			continue
@@ -417,6 +418,9 @@ func (p c19) gen(r *core.Rand) c19Case {
 					if r.Chance(1, 3) { // an excluded alternative first, pointing backwards (to a later source)
 						if i < n-1 {
 							rel = append(rel, decorate(model.MPoss{Name: binOf(r.Range(i+1, n-1))}, false))
+						}
+						if r.Chance(1, 2) { // ... then a substvar in the middle: x [other-arch] | ${v} | real
+							rel = append(rel, model.MPoss{Name: "misc:Depends", Substvar: true})
 						}
 					}
 					rel = append(rel, decorate(model.MPoss{Name: binOf(r.Intn(i))}, true))
